@@ -16,7 +16,8 @@
    were never checked; attributes unknown to the target version's element type were skipped. *)
 From AV Require Import Base.Bytes Base.Outcome Hash.HashModel Spec.SpecReal Tree.Heap Tree.Ops Tree.Compat Tree.CompatSpec
   Tree.CompatProofs1 Tree.CompatProofs2 Tree.CompatProofs3 Tree.CompatProofs4 Tree.Serialize
-  Tree.CompatTyped Tree.CompatProofs5 Tree.CompatReal Tree.CompatBridge Tree.CompatProofs6 Tree.CompatProofs7 Tree.Inv Tree.CompatProofs8.
+  Tree.CompatTyped Tree.CompatProofs5 Tree.CompatReal Tree.CompatBridge Tree.CompatProofs6 Tree.CompatProofs7 Tree.CompatProofs8.
+From AV Require Tree.Inv.
 From AV Require Xml.Serializer Xml.RoundTripCanonb.
 From AV Require Xml.Parser.
 Open Scope list_scope.
@@ -223,20 +224,20 @@ Proof. exact relabelled_text. Qed.
    every operation (C03).  TypedT T w: every element's stored DATATYPE is the one its parent's stored type lists for its name in
    some version set within u32. *)
 (* [U] Core gives the parent-link half of Typed and RootOk *)
-Theorem C17_typed_of_core : forall (T : tables) (w : world), Core w -> TypedT T w -> Typed T w.
+Theorem C17_typed_of_core : forall (T : tables) (w : world), Inv.Core w -> TypedT T w -> Typed T w.
 Proof. exact typed_of_core. Qed.
-Theorem C17_rootok_of_core : forall (w : world) (f : N), Core w -> RootOk w f.
+Theorem C17_rootok_of_core : forall (w : world) (f : N), Inv.Core w -> RootOk w f.
 Proof. exact rootok_of_core. Qed.
 
 (* [U] element creation (the common core of create_sub_element, create_sub_element_at, get_or_create_sub_element) keeps TypedT when
    it is called with a version within u32.  (move_element_here / create_copied_sub_element keep the stored type of the moved /
    copied element and check only that the destination lists its NAME: not covered, C07's subject) *)
 Theorem C17_create_keeps_typed : forall (T : tables) (self name pos version : N) (w : world) (r : out id) (w' : world),
-  Core w -> TypedT T w -> N.land version U32MAX = version ->
+  Inv.Core w -> TypedT T w -> N.land version U32MAX = version ->
   create_sub_element_inner T self name pos version w = Val (r, w') -> TypedT T w'.
 Proof. exact create_inner_typed. Qed.
 
 (* [U over worlds, F over the tables] exactness on the real tables from C03's invariant and typed stored datatypes *)
 Theorem C17_exact_real_core : forall (w : world) (f v : N) (r : cres),
-  Core w -> TypedT RT w -> f_check RT w f v = Val r -> (fst r = [] <-> ValidIn RT w f v).
+  Inv.Core w -> TypedT RT w -> f_check RT w f v = Val r -> (fst r = [] <-> ValidIn RT w f v).
 Proof. exact f_check_exact_real_core. Qed.
